@@ -1,8 +1,15 @@
 (* C10 driver.  Scenario:  <seed> <outalloc 0|1> <nthreads> { <nops> op*nops }*nthreads
      op ::= :a <slot> <size> <entry 0..6> | :f <slot> <entry 0 delete|1 delete[]|2 free> | :r <slot> <size> | :o <slot>
           | :w <entry 0 delete|1 delete[]|2 free|3 realloc> | :t
-   The schedule the model runs is derived from <seed> here (any schedule gives the same observation: C10_schedule_independent).
-   Observation:  :ok <ntests> verdict* <wfail> <adv> <distinct> <foreign> <rest> <n> (<thread> <slot> <size>)*n   |   :hang *)
+          | :x <slot> <how>   realloc(slot, n) for an n that is turned down: how 0 = SIZE_MAX-16 and 4 = the smallest size the
+                              overflow guard refuses (RGuard); 1 = SIZE_MAX/2, 2 = an ordinary size with the underlying realloc
+                              made to fail at the PlatformSpecificRealloc seam, 3 = the largest size the guard admits (RUnderlying)
+          | :s <ms>           directive, not an operation: the thread's next operation rests <ms> milliseconds inside the locked
+                              region.  The model has no clock: here the directive becomes a stretch of the schedule in which that
+                              thread is taken into the locked region and then every other thread is given turns.
+   The schedule the model runs is derived from <seed> (and the :s directives) here; any schedule gives the same observation
+   (C10_schedule_independent).
+   Observation:  :ok <ntests> verdict* <wfail> <adv> <distinct> <foreign> <rest> <overlap> <n> (<thread> <slot> <size>)*n   |   :hang *)
 let alloc_entry = function
   | 0 -> ENew | 1 -> ENewNothrow | 2 -> ENewDebug | 3 -> ENewArr | 4 -> ENewArrNothrow | 5 -> ENewArrDebug | 6 -> EMalloc
   | i -> raise (Bad (Printf.sprintf "allocating entry %d" i))
@@ -16,7 +23,34 @@ let op c =
   | ":o" -> OOverrun (nat_tok (next c))
   | ":w" -> OWild (release_entry (int_tok (next c)))
   | ":t" -> OBoundary
+  | ":x" -> let k = nat_tok (next c) in
+            (match int_tok (next c) with
+             | 0 | 4 -> ORefused (k, RGuard)
+             | 1 | 2 | 3 -> ORefused (k, RUnderlying)
+             | i -> raise (Bad (Printf.sprintf "refused realloc kind %d" i)))
   | t -> raise (Bad ("op " ^ t))
+(* an item of a script: an operation, or the directive :s <ms> *)
+let item c = if peek c = Some ":s" then (ignore (next c); ignore (int_tok (next c)); None) else Some (op c)
+(* micro-steps thread t needs on its own to stand inside the locked region of its j-th operation (exact for scripts without
+   misuse; any number gives a legitimate schedule) *)
+let steps_into ops j =
+  let rec go i = function
+    | [] -> 0
+    | o :: r -> if i >= j then 2 else (match o with OOverrun _ | OBoundary -> 1 | _ -> 4) + go (i + 1) r in
+  go 0 ops
+let stall_schedule items =
+  (* items : per thread, the list of (Some op | None = directive) *)
+  let nth = List.length items in
+  List.concat (List.mapi (fun t its ->
+      let ops = List.filter_map (fun x -> x) its in
+      let rec pos i acc = function
+        | [] -> List.rev acc
+        | None :: r -> pos i (i :: acc) r
+        | Some _ :: r -> pos (i + 1) acc r in
+      List.concat_map (fun j ->
+          List.init (steps_into ops j) (fun _ -> nat_of_int t)
+          @ List.concat (List.init 12 (fun _ -> List.filter_map (fun u -> if u = t then None else Some (nat_of_int u)) (List.init nth (fun u -> u)))))
+        (pos 0 [] its)) items)
 let schedule seed nthreads nops =
   (* xorshift; runs of one thread of random length so that both fine and coarse interleavings occur *)
   let st = ref (Int64.logor (Int64.of_int (seed * 2654435761 + 12345)) 1L) in
@@ -31,21 +65,22 @@ let scenario ts =
   let c = { rest = ts } in
   let seed = int_tok (next c) land 0xfffffff in
   let oa = bool_tok (next c) in
-  let scripts = counted c (fun c -> counted c op) in
+  let items = counted c (fun c -> counted c item) in
   if not (at_end c) then raise (Bad "trailing tokens");
+  let scripts = List.map (List.filter_map (fun x -> x)) items in
   let nops = List.fold_left (fun a s -> a + List.length s) 0 scripts in
-  { sc_outalloc = oa; sc_scripts = scripts; sc_sched = schedule seed (List.length scripts) nops }
+  { sc_outalloc = oa; sc_scripts = scripts; sc_sched = stall_schedule items @ schedule seed (List.length scripts) nops }
 let pobs o =
   if not o.o_done then ":hang" else
   let ents = List.sort compare (List.map (fun ((t, k), z) -> (int_of_nat t, int_of_nat k, pn z)) o.o_entries) in
   String.concat " " ([":ok"; Printf.sprintf "%x" (List.length o.o_verdicts)] @ List.map pbool o.o_verdicts
-                     @ [pn o.o_wfail; pn o.o_adv; pbool o.o_distinct; pn o.o_foreign; pn o.o_rest; Printf.sprintf "%x" (List.length ents)]
+                     @ [pn o.o_wfail; pn o.o_adv; pbool o.o_distinct; pn o.o_foreign; pn o.o_rest; pn o.o_overlap; Printf.sprintf "%x" (List.length ents)]
                      @ List.concat_map (fun (t, k, z) -> [Printf.sprintf "%x" t; Printf.sprintf "%x" k; z]) ents)
 let run_line ts =
   let s = scenario ts in
   if not (valid s) then raise (Bad "scenario is not valid (allocation into a held slot, overrun of an empty slot, misuse on a worker thread, ...)")
   else pobs (run s)
-let hung = { o_done = false; o_verdicts = []; o_wfail = N0; o_adv = N0; o_distinct = false; o_foreign = N0; o_rest = N0; o_entries = [] }
+let hung = { o_done = false; o_verdicts = []; o_wfail = N0; o_adv = N0; o_distinct = false; o_foreign = N0; o_rest = N0; o_overlap = N0; o_entries = [] }
 let spec_line ts os =
   let s = scenario ts in
   if not (valid s) then true else
@@ -54,8 +89,8 @@ let spec_line ts os =
   | ":ok" ->
       let v = counted c (fun c -> bool_tok (next c)) in
       let wf = n_tok (next c) in let adv = n_tok (next c) in let d = bool_tok (next c) in
-      let fo = n_tok (next c) in let re = n_tok (next c) in
+      let fo = n_tok (next c) in let re = n_tok (next c) in let ov = n_tok (next c) in
       let ents = counted c (fun c -> let t = nat_tok (next c) in let k = nat_tok (next c) in ((t, k), n_tok (next c))) in
       if not (at_end c) then false else
-      spec s { o_done = true; o_verdicts = v; o_wfail = wf; o_adv = adv; o_distinct = d; o_foreign = fo; o_rest = re; o_entries = ents }
+      spec s { o_done = true; o_verdicts = v; o_wfail = wf; o_adv = adv; o_distinct = d; o_foreign = fo; o_rest = re; o_overlap = ov; o_entries = ents }
   | _ -> spec s hung
